@@ -512,7 +512,7 @@ func c02Judge(fail func(string, ...any), o *c02Original, mc Certificate, pool fu
 }
 
 func TestC02_TamperedRejected(t *testing.T) {
-	vk.Check(t, 3000, func(rt *rapid.T) {
+	vk.Check(t, 9000, func(rt *rapid.T) {
 		o := c02DrawOriginal(rt)
 		pool := func() *CAPool { return cgPool(rt, []*cgCA{o.ca}, []bool{true}) }
 		for k := 0; k < 8; k++ {
